@@ -247,6 +247,10 @@ func NewBalDriver(mode string) *BalDriver {
 			balOp{kind: "transfer", from: "A", to: "L1", amt: bigS("1"), signer: "from"},
 			balOp{kind: "transfer", from: "A", to: "Lnext", amt: bigS("1"), signer: "from"},
 			balOp{kind: "lock", from: "B", to: "Lnext", amt: bigS("1"), until: 1, signer: "C"},
+			// owners that lock everything they have keep no account record until the release brings one back: two such
+			// owners released by one tick
+			balOp{kind: "mint", to: "B", amt: bigS("1"), signer: "C"},
+			balOp{kind: "lock", from: "A", to: "Lnext", amt: bigS("10"), until: 1, signer: "C"},
 			balOp{kind: "transfer", from: "L1", to: "A", amt: bigS("1"), signer: "to"},
 			balOp{kind: "transfer", from: "L1", to: "A", amt: bigS("1"), signer: "S"},
 		)
